@@ -545,6 +545,12 @@ func (e *specEnv) evalCall(n ECall) Val {
 			e.fail("visited(k): no map with key sort %s is iterated", k.Sort)
 		}
 		return Val{S: "(select (select " + e.heapTerm(cls) + " " + it.S + ") " + k.S + ")", Sort: "Bool"}
+	case "spawncount":
+		// spawncount(): the number of `go` statements executed on this path
+		if e.st == nil {
+			e.fail("spawncount() needs a path state")
+		}
+		return Val{S: itoa(len(e.st.spawned)), Sort: "Int"}
 	case "callcount":
 		if e.st == nil || len(n.Args) != 1 {
 			e.fail("callcount(name) needs a path state")
